@@ -8,6 +8,7 @@ import sys
 from . import shapes
 
 OUT_PASS, OUT_ASSERT, OUT_EXC, OUT_PENDING, OUT_KBD, OUT_SKIP, OUT_CLEANUP, OUT_PRINT, OUT_ABORT = 0, 1, 2, 3, 4, 5, 6, 7, 8
+OUT_SKIPFAIL = 9        # the step marks its own scenario as skipped and then fails an assertion
 OUT_NAMES = {1: "assert", 2: "exception", 3: "pending", 4: "kbdint", 5: "skip-scenario", 6: "cleanup", 7: "print"}
 
 _CFG_CACHE = {}
@@ -134,6 +135,7 @@ class World(object):
         self._converr = {}
         self._has = {}
         self.hook_skipped = set()
+        self.pre_skipped = set()
         self._undef = {}
         self._sel = {}
         self._clean = {}
@@ -424,6 +426,10 @@ class World(object):
             self.events.append(("skip-scenario", sid, src))
             context.scenario.skip()
             return
+        if o == OUT_SKIPFAIL:
+            self.events.append(("assert", sid, src))
+            context.scenario.skip()
+            raise AssertionError("failed after skip %s" % src)
         if o == OUT_ABORT:
             self.events.append(("abort-called", sid, src))
             context.abort()
@@ -502,6 +508,15 @@ class World(object):
                 if name == "before_scenario" and w.opts.get("continue_after_failed_step") == "in-hook":
                     # the documented per-scenario recipe: the flag is switched on by the before_scenario hook
                     context.scenario.continue_after_failed_step = True
+                if name == "before_feature" and w.opts.get("feature_hook_skips_later_scenario"):
+                    # a before_feature hook that excludes one of the LATER scenarios of its feature (the n-th, n symbolic, n >= 1)
+                    scs_ = [e_ for e_ in w.scenario_elems() if e_.eid.startswith(str(arg) + ".")]
+                    n_ = w.sx.int("pre_skip_index", 1, max(1, len(scs_) - 1))
+                    n_ = n_ if isinstance(n_, int) else w.sx.concretize_int(n_, 1, max(1, len(scs_) - 1))
+                    if 0 < n_ < len(scs_) and scs_[n_].obj is not None:
+                        w.pre_skipped.add(scs_[n_].eid)
+                        w.events.append(("pre-skip", scs_[n_].eid))
+                        scs_[n_].obj.skip()
                 if name == "before_scenario" and w.opts.get("hook_skip_scenario"):
                     # a before_scenario hook that excludes its own scenario at run time (the n-th one, n symbolic)
                     n_ = w._bs_seen = getattr(w, "_bs_seen", -1) + 1
